@@ -534,7 +534,13 @@ def gen_thread_case(rng, target: str) -> dict:
             pk = [(f"{i}.{j}." + "".join(rng.choice("abcxyz") for _ in range(rng.randint(0, 12)))).encode().hex()
                   for j in range(k)]
         senders.append({"packets": pk})
-    return {"target": target, "spec": spec, "senders": senders, "sizes": [rng.choice([1, 1, 2, 3, 5]) for _ in range(7)]}
+    case = {"target": target, "spec": spec, "senders": senders, "sizes": [rng.choice([1, 1, 2, 3, 5]) for _ in range(7)]}
+    if rng.random() < 0.5:
+        # some sends carry a timeout: under contention they may give up at the lock (TimeoutError, nothing written),
+        # which must never disturb the critical section of the thread that owns the lock
+        for s in senders:
+            s["timeouts"] = [rng.choice([None, None, 0, 0, 0.0005, 0.02, 5]) for _ in s["packets"]]
+    return case
 
 
 def grid_cases():
